@@ -102,6 +102,8 @@ type FuncVC struct {
 	implFacts []Term
 	lastLess  string
 	fieldInvs map[string][]*FieldInv
+	specClosure *ssa.Function // specialisation: the function-typed parameter is this closure
+	specClosureVal *ClosureVal
 }
 
 type axiomT struct {
@@ -446,6 +448,32 @@ func (vc *FuncVC) callMods(c *ssa.CallCommon, out map[string]bool, depth int) {
 		return
 	case *ssa.Function:
 		sp := vc.w.specFor(f)
+		switch f.String() {
+		case "sort.Slice", "sort.SliceStable":
+			// permutes the elements of its first argument; the comparison closure is evaluated purely
+			if mi, ok := c.Args[0].(*ssa.MakeInterface); ok {
+				if sl, ok := mi.X.Type().Underlying().(*types.Slice); ok {
+					vc.leafHeaps("[]"+typeKey(sl.Elem()), sl.Elem(), out)
+					return
+				}
+			}
+			out["*"] = true
+			return
+		case "(*go.etcd.io/bbolt.DB).View", "(*go.etcd.io/bbolt.DB).Update":
+			if sp != nil {
+				vc.specMods(sp, f, c, out)
+			}
+			if mc, ok := c.Args[1].(*ssa.MakeClosure); ok && depth < 4 {
+				for _, b := range mc.Fn.(*ssa.Function).Blocks {
+					for _, in := range b.Instrs {
+						vc.instrMods(in, out, depth+1)
+					}
+				}
+				return
+			}
+			out["*"] = true
+			return
+		}
 		if sp != nil && !sp.Inline {
 			vc.specMods(sp, f, c, out)
 			return
@@ -829,6 +857,10 @@ func (vc *FuncVC) localNamesAt(fn *ssa.Function, at *ssa.BasicBlock, upto ssa.In
 				}
 			}
 			switch x := in.(type) {
+			case *ssa.Phi:
+				if x.Comment != "" && x.Comment != "rangeindex" {
+					out[x.Comment] = localRef{x, false}
+				}
 			case *ssa.DebugRef:
 				id, ok := x.Expr.(*ast.Ident)
 				if !ok {
@@ -836,6 +868,12 @@ func (vc *FuncVC) localNamesAt(fn *ssa.Function, at *ssa.BasicBlock, upto ssa.In
 				}
 				if _, isVar := x.Object().(*types.Var); !isVar {
 					continue
+				}
+				if prev, ok := out[id.Name]; ok && prev.isAddr && !x.IsAddr {
+					if a, isAlloc := prev.v.(*ssa.Alloc); isAlloc && a.Comment == id.Name && a.Pos() == x.Object().Pos() {
+						// the variable lives in memory (address taken): its cell is the source of truth
+						continue
+					}
 				}
 				out[id.Name] = localRef{x.X, x.IsAddr}
 			case *ssa.Alloc:
@@ -850,9 +888,12 @@ func (vc *FuncVC) localNamesAt(fn *ssa.Function, at *ssa.BasicBlock, upto ssa.In
 			out[phi.Comment] = localRef{phi, false}
 		}
 	}
-	// parameters win over shadowing locals
+	// parameters are visible unless a local declared later shadows them (as in Go); a contract can rename the
+	// parameters in its header to reach a shadowed one
 	for _, p := range fn.Params {
-		out[p.Name()] = localRef{p, false}
+		if _, shadowed := out[p.Name()]; !shadowed {
+			out[p.Name()] = localRef{p, false}
+		}
 	}
 	return out
 }
